@@ -51,7 +51,7 @@ def check_model(ctx, model, label, max_steps, slots=2, force_sets='small', **fla
     if not any(len(l) == 2 and [l[0]] in model.lists for l in model.lists):
         dead_ok |= {'AddChain'}
     if not flags.get('force', True):
-        dead_ok |= {'Force', 'ChainForce'}
+        dead_ok |= {'Force', 'ChainForce', 'Reset'}
     if not flags.get('restart', True):
         dead_ok |= {'Restart'}
     account(ctx, res, f'StoreAtomic/{label} exhaustive MaxSteps={max_steps} slots={slots}', dead_ok=dead_ok)
@@ -113,6 +113,8 @@ def describe(model, beh, upto=None):
             out.append(f"s{act['s']}+=Chain({act['n']}, shared_tasks=registry of s{act['s']})")
         elif n == 'Force':
             out.append(f"force(s{act['s']}.m{act['m']}.{act['n']}, delete={act['del']})")
+        elif n == 'Reset':
+            out.append(f"reset_data(s{act['s']}.m{act['m']}.{act['n']})")
         elif n in ('ChainForce', 'MultiForce'):
             out.append(f"{n}(s{act['s']}.m{act['m']}, {sorted(act['T'])}, recompute={act['rec']}, delete={act['del']})")
         else:
@@ -237,7 +239,7 @@ def run_families(ctx, plans, relevant):
             steps = gen.pop('steps')
             g = export_graph(ctx, model, fam_name, steps, slots=gen.pop('slots', 1),
                              force_sets=gen.pop('force_sets', 'small'), **gen)
-            cover, ncov = g.cover(maxlen=max(steps + 4, 10), rng=ctx.rng, limit=plan.get('cover_limit'))
+            cover, ncov = g.cover(maxlen=max(steps + 4, 10), rng=ctx.rng, limit=plan.get('cover_limit', 6000))   # (a full edge cover of the larger thorough instances is hours of replay)
             walks = [g.walk(ctx.rng, plan.get('walk_len', 12)) for _ in range(plan.get('walks', 0))]
             ctx.count('graph_edges', len(g.edges))
             ctx.count('graph_states', g.n_states())
